@@ -47,7 +47,7 @@ type Outcome struct {
 	Violations []Violation
 	Log        []string
 	LogClock   []int64 // virtual clock at each log entry
-	Clock      int64 // clock when main returned (or at end)
+	Clock      int64   // clock when main returned (or at end)
 	EndClock   int64
 	Cost       int
 	Crash      string
